@@ -58,10 +58,12 @@ def run_case(case, strict=False):  # pylint: disable=unused-argument,too-many-br
                 if not it.open_before and it.cls == geom.OUT and it.cmd not in it.out:
                     out.append(asserts.F("c14_spurious_suppression", it, "move with destination outside every region, no episode open, was not forwarded: %r" % (it.out,)))
         if it.kind == "at":
-            streaming = len(it.item) > 3 and bool(it.item[3])
+            streaming = len(it.item) > 3 and it.item[3] is True
             acts = atm.actions(it.item[1], it.item[2], streaming)
             if streaming:
                 cl.add("at_while_streaming")
+            if len(it.item) > 3 and it.item[3] == "paused":
+                cl.add("at_while_paused")
             if not acts:
                 cl.add("at_no_match")
                 if direct and it.raw is not False and it.raw:
